@@ -40,7 +40,16 @@ func genWorkload(t *rapid.T) c16Workload {
 	n := w.G * rapid.IntRange(1, 3).Draw(t, "perG")
 	cc := vlib.Corpus()
 	for i := 0; i < n; i++ {
-		switch rapid.IntRange(0, 3).Draw(t, "src") {
+		switch rapid.IntRange(0, 4).Draw(t, "src") {
+		case 4:
+			// two projects with byte-identical schema bodies that mean different
+			// things (an enum's values, a type's body differ)
+			sib := genSiblings(t)
+			w.Projects = append(w.Projects, sib[0])
+			if i+1 < n {
+				w.Projects = append(w.Projects, sib[1])
+				i++
+			}
 		case 0:
 			w.Projects = append(w.Projects, vlib.Single(cc[rapid.IntRange(0, len(cc)-1).Draw(t, "fixture")].Content))
 		case 1:
